@@ -25,6 +25,21 @@ PROPS = {
         "expected_probes": ["tamper_rejected_or_aborted", "site_bit", "site_generate_proof", "site_challenge", "site_diff", "site_p_times_q"],
         "components_real": ["protocol::context::{dzkp_validator, dzkp_malicious, dzkp_field, batcher}, ipa_prf::{malicious_security, validation_protocol}, basics::mul::dzkp_malicious, boolean_ops, Gateway, in-memory transport"],
     },
+    "C06": {
+        "level": "exploration",
+        "rule": "c06_prss: run = endpoints negotiated over the simulated network or made by make_participants, 1..24 seeded (step, index, width) queries with widths {1,2,16,2048 blocks = the offset cap} "
+                "and a sequential generator per helper; c06_xshard: gen_and_distribute on 3 helpers x {2,3,5} shards; reuse monitor: the debug-build UsedSet detector is armed in the fault-free workloads of "
+                "C04/C05/C07 (MAC batches over (records, active) grids, DZKP proof batches, sharded shuffles over row counts x shards) - a run is non-trivial iff it drew PRSS values on >=2 helpers; distinct by (shape, schedule digest)",
+        "scenarios": [
+            {"name": "c06_prss", "quick": 3000, "thorough": 100000, "offset": 1, "chunk": 100},
+            {"name": "c06_xshard", "quick": 3000, "thorough": 100000, "offset": 2, "chunk": 150},
+            {"name": "c04_mac", "quick": 1500, "thorough": 60000, "offset": 3, "chunk": 50, "prss_reuse_only": True, "run_timeout": 120},
+            {"name": "c07_circ", "quick": 800, "thorough": 40000, "offset": 4, "chunk": 25, "prss_reuse_only": True, "run_timeout": 120},
+            {"name": "c05_shuffle", "quick": 800, "thorough": 40000, "offset": 5, "chunk": 25, "prss_reuse_only": True, "run_timeout": 120},
+        ],
+        "expected_probes": ["blocks_compared", "negotiated_over_network", "multi_block_to_offset_cap", "xshard_nodes", "reuse_monitor_runs"],
+        "components_real": ["protocol::prss::{Endpoint, crypto::{Generator, UsedSet}, seed}, helpers::{prss_protocol::negotiate, cross_shard_prss::gen_and_distribute}, plus every protocol of the monitored workloads"],
+    },
     "C07": {
         "level": "exploration",
         "rule": "run = seeded Boolean circuit (and/or/xor/add with carry/sat_add/sub/gt/geq) x vector width {1,16,32,256} x operand widths 1..120 incl. unequal widths x semi-honest/DZKP-malicious x "
@@ -148,6 +163,12 @@ NOT_APPLICABLE = {
 }
 
 MANIFEST_TEXT = {
+    "C06": {
+        "text": "Seeded exploration: (1) PRSS endpoints produced by the real key exchange over the simulated network (and by make_participants) are queried with seeded (step, index, width) tuples incl. multi-block values up to the 2^11 offset cap and sequential generators: right_i == left_{i+1} on every block, and all blocks of all (helper pair, step, index, offset) are pairwise distinct; (2) gen_and_distribute on 3 x {2,3,5} shards under seeded schedules: every shard of a helper derives the leader's values and they match the neighbouring helpers' shards; (3) the 'never drawn twice' clause is a monitor: the debug-build reuse detector is armed while the fault-free MAC, DZKP-circuit and sharded-shuffle workloads run over their size/batch grids, and its panic is routed here. Sampling, not proof.",
+        "design_ref": "DESIGN.md section 4, C06",
+        "note": "'unrelated' is checked as pairwise distinctness of 128-bit blocks (collision probability 2^-128 per pair), not as statistical independence; the reuse detector exists only in debug builds (the simulator is one)",
+        "technique": "deterministic simulation: PRSS set-up over the simulated network + cross-helper/cross-shard equality oracle + global reuse monitor over other scenarios",
+    },
     "C04": {
         "text": "Fault enumeration over the real MAC validator and openings: honest executions over three fields and the real pseudonym function must validate and open exactly x*y / g^(1/(k+x)) on all helpers; then the same seed is replayed with one helper adding an error to one field element (or flipping a bit) of one chunk it sends, at a site drawn from the honest run's inventory stratified over every step of upgrade, multiply, duplicate multiply, propagate-u/w, reveal-r, check-zero and the opening. Violation iff both honest helpers validate and open a value different from the true one (32-bit and 255-bit fields); for the 5-bit field the acceptance rate over the batch must stay below 0.1 plus a 6.5-sigma margin. Sites are sampled.",
         "design_ref": "DESIGN.md section 4, C04",
